@@ -1531,8 +1531,8 @@ class Executor(MatchMixin, ExprMixin):
                 if is_seq(a[0]) and z3.is_string_value(z3.simplify(v)):
                     return [(st, join_lines(a[0]))]
                 return [(st, fresh("joined", z3.StringSort()))]
-            if name == "encode":
-                return [(st, PyConst("bytes"))]
+            if name == "encode" and not a:
+                return [(st, PyObj("EncodedStr", {"s": v}))]          # the UTF-8 bytes of the text: only indexing is modelled (ASCII characters)
         if is_seq(v):
             if name == "append":
                 raise Unsupported("append must go through a field/name (handled in seq_mutation)")
